@@ -142,14 +142,16 @@ func step(s kstate, e *event) ([]kstate, string) {
 		return one(s) // documented race outcome; nothing asserted
 	case evMPatched:
 		if !s.Exists {
-			// outside C11: the write is lost, or re-creates the record from the removed object
-			r := s
-			r.Exists = true
-			r.Body = applyOps(e.Ops, s.Body)
+			// outside C11: the write went to the removed object (it stays invisible — lost — or
+			// re-creates the record from that object); either way the object carries the ops
+			lost := s
+			lost.Body = applyOps(e.Ops, s.Body)
 			if e.NewExp != 0 {
-				r.Exp = e.NewExp
+				lost.Exp = e.NewExp
 			}
-			return []kstate{s, r}, ""
+			r := lost
+			r.Exists = true
+			return []kstate{lost, r}, ""
 		}
 		if !evalCond(e.Cond, s.Body) {
 			return nil, fmt.Sprintf("condition %s is false on body %v", e.Cond, s.Body)
@@ -173,9 +175,9 @@ func step(s kstate, e *event) ([]kstate, string) {
 		}
 		return one(s)
 	case evDelOK:
-		if !s.Exists {
-			return nil, "record does not exist (nothing to delete)"
-		}
+		// On a missing record the acknowledgement is wrong, but between two Deletes that is not
+		// C11's business; "handed out by a claim AND acknowledged as deleted" is judged by an
+		// explicit clause in judgeC11.
 		s.Exists = false
 		return one(s)
 	case evSetOK:
@@ -195,7 +197,9 @@ func step(s kstate, e *event) ([]kstate, string) {
 		if e.NewExp != 0 {
 			old.Exp = e.NewExp
 		}
-		return []kstate{s, fresh, old}, "" // s: the acknowledged write is lost (not C11's business)
+		lost := old
+		lost.Exists = false
+		return []kstate{lost, fresh, old}, "" // lost: the write went to the removed, invisible object (not C11's business)
 	}
 	panic("step: unknown event kind")
 }
